@@ -7,6 +7,7 @@ import (
 	"os"
 	"path/filepath"
 	"runtime"
+	"runtime/pprof"
 	"sort"
 	"strings"
 	"sync"
@@ -196,6 +197,7 @@ func (in *Interp) resetPath(prefix []Decision) {
 	in.elemBacking = map[*Value][]Value{}
 	in.timerOf = map[*Value]*timerEnt{}
 	in.localFuncs = map[string]bool{}
+	in.wrapped = map[*Value]Iface{}
 	in.lastPanic = nil
 	in.engineErr = nil
 	in.sched = newSched(in)
@@ -371,6 +373,9 @@ func runHarness(l *Loaded, spec *CheckSpec, h *HarnessSpec, tier string, extraPa
 	if ts.MaxSteps > 0 {
 		cfg.MaxSteps = ts.MaxSteps
 	}
+	if v := os.Getenv("GOSYM_MAXSTEPS"); v != "" {
+		fmt.Sscanf(v, "%d", &cfg.MaxSteps)
+	}
 	if ts.MaxPaths > 0 {
 		cfg.MaxPaths = ts.MaxPaths
 	}
@@ -432,6 +437,7 @@ func runHarness(l *Loaded, spec *CheckSpec, h *HarnessSpec, tier string, extraPa
 			ex.mu.Lock()
 			ex.queries += in.sol.Queries
 			ex.solverTime += in.sol.SolveTime
+			ex.modelTime += in.sol.ModelTime
 			ex.solverErrs += in.sol.Errors
 			ex.mu.Unlock()
 		}(w)
@@ -441,6 +447,9 @@ func runHarness(l *Loaded, spec *CheckSpec, h *HarnessSpec, tier string, extraPa
 		Reached: ex.reached, Violations: ex.violations, Samples: ex.samples, Queries: ex.queries,
 		SolverTimeS: ex.solverTime.Seconds(), Unknown: ex.nUnknown, SolverErrs: ex.solverErrs,
 		WallS: time.Since(ex.started).Seconds(), Truncated: ex.truncated, MaxDecDepth: ex.maxDepthDec, Steps: totalSteps}
+	if os.Getenv("GOSYM_PROGRESS") != "" {
+		fmt.Fprintf(os.Stderr, "gosym: idle=%.1fs model=%.1fs solver=%.1fs steps=%d\n", ex.idle.Seconds(), ex.modelTime.Seconds(), ex.solverTime.Seconds(), totalSteps)
+	}
 	for f := range ex.funcs {
 		res.Funcs = append(res.Funcs, f)
 	}
@@ -519,7 +528,13 @@ func cmdRun(args []string) int {
 	only := fs.String("harness", "", "run only this harness")
 	workers := fs.Int("workers", 16, "worker count")
 	paramStr := fs.String("params", "", "k=v,k=v overrides")
+	prof := fs.String("cpuprofile", "", "write cpu profile")
 	fs.Parse(args)
+	if *prof != "" {
+		f, _ := os.Create(*prof)
+		pprof.StartCPUProfile(f)
+		defer pprof.StopCPUProfile()
+	}
 	data, err := os.ReadFile(*specPath)
 	if err != nil {
 		fmt.Fprintln(os.Stderr, err)
@@ -548,5 +563,6 @@ func cmdRun(args []string) int {
 		return 2
 	}
 	loadS := time.Since(t0).Seconds()
+	defer pprof.StopCPUProfile()
 	return runSpec(l, &spec, *tier, *only, *workers, extra, *out, *verif, *repo, loadS)
 }
